@@ -1,5 +1,37 @@
-//! Conformance harness for property C06, see /verif/DESIGN.md.
+//! Conformance harness for property C06 (parser totality, print/re-parse),
+//! see /verif/DESIGN.md section 6 and spec/Syntax.tla.
+mod run;
+mod tree;
+
+fn probe(args: &[String]) -> i32 {
+    yvcommon::util::quiet_panics();
+    let portable = args.iter().any(|a| a == "--portable");
+    for t in args.iter().filter(|a| !a.starts_with("--")) {
+        let t = t.replace("\\n", "\n");
+        let a = run::analyse(&t, portable);
+        println!(
+            "{}",
+            serde_json::json!({"in": t, "out": a.out, "detail": a.detail, "printed": a.printed, "rt": a.rt,
+                "rt_detail": a.rt_detail, "pulled": a.pulled, "needed": a.needed, "ahead": a.ahead, "tree": a.tree,
+                "tokens": a.printed.first().map(|p| run::tokenize(p).unwrap_or_default())})
+        );
+    }
+    0
+}
+
 fn main() {
-    eprintln!("yv-c06: not implemented yet");
-    std::process::exit(2);
+    let args: Vec<String> = std::env::args().collect();
+    if args.len() < 2 {
+        eprintln!("usage: yv-c06 <probe|replay|record|...> ...");
+        std::process::exit(2);
+    }
+    let rest = &args[2..];
+    let code = match args[1].as_str() {
+        "probe" => probe(rest),
+        other => {
+            eprintln!("unknown subcommand {other}");
+            2
+        }
+    };
+    std::process::exit(code);
 }
